@@ -93,6 +93,47 @@ def extend_chain(g, st, rng, n):
     return st
 
 
+def owindow_chain(g, st, rng):
+    """two consecutive ordered-window extends over the same partition whose order_by lists name the same columns
+    in a different order (or differ only in reversal): must not be merged into one window"""
+    r = g.step_owextend(st)
+    if r is None:
+        return st
+    step, kinds1 = r
+    try:
+        fr = g.apply(st, step)
+    except Exception:
+        return st
+    node = dict(step)
+    node["src"] = st.node
+    k = dict(st.kinds)
+    k.update(kinds1)
+    st1 = R.St(node, fr, {c: k[c] for c in fr.columns})
+    order = list(step["order_by"])
+    if len(order) >= 2 and rng.random() < 0.7:
+        order2 = order[1:] + order[:1]
+        rev2 = [c for c in step.get("reverse") or [] if c in order2]
+    else:
+        order2 = list(order)
+        rev2 = [c for c in order2 if c not in (step.get("reverse") or [])][:1]
+    numcols = [c for c in st.cols(("i", "f")) if c not in order2 and c != "uid" and not st.has_null(c)
+               and (step["partition_by"] == 1 or c not in step["partition_by"])]
+    ops2 = [[g.newcol(st1, "o"), ["f", "_row_number", []]]]
+    if numcols:
+        ops2.append([g.newcol(st1, "oo"), ["m", rng.choice(["cumsum", "cummax", "cummin"]), ["col", rng.choice(numcols)], []]])
+    step2 = {"op": "extend", "ops": ops2, "partition_by": step["partition_by"], "order_by": order2, "reverse": rev2}
+    try:
+        fr2 = g.apply(st1, step2)
+    except Exception:
+        return st1
+    node2 = dict(step2)
+    node2["src"] = st1.node
+    k2 = dict(st1.kinds)
+    for c, _ in ops2:
+        k2[c] = "f"
+    return R.St(node2, fr2, {c: k2[c] for c in fr2.columns})
+
+
 def count_nodes(ops):
     seen = set()
 
@@ -161,6 +202,14 @@ def run_batch(seed, batch, tier):
                     case["recipe"] = st.node
                     case["final_order"] = None
                     shape = "extend-chain"
+                elif b.rng.random() < 0.2:
+                    st0 = st
+                    st = owindow_chain(g, st, b.rng)
+                    if st is not st0:
+                        case["recipe"] = st.node
+                        case["final_order"] = None
+                        shape = "ordered-window-chain"
+                        b.count("shapes", shape)
                 b.evaluation()
                 nsteps = B.depth(case["recipe"])
                 before = dict(_merge_calls)
